@@ -900,13 +900,22 @@ def hostile_case(case, r, idx):
         steps.append({"do": "connect", "n": 2})
         steps.append({"do": "app", "n": 2, "c": 0, "streams": [{"dir": 0, "size": 4000, "chunk": 1000, "finish": True}]})
     steps += [{"do": "run_until", "what": "connected", "max_us": 5000000}, {"do": "run", "us": 400000}]
-    if k in ("stream", "reset") and case["idc"] == "peer_bidi_last_allowed" and not conn_aim and r.random() < 0.5:
+    if k in ("stream", "reset") and case["idc"] == "peer_bidi_last_allowed" and not conn_aim and r.random() < 0.6:
         # the limit must be that of the stream itself, not one inherited from an earlier stream whose
-        # bookkeeping is recycled: first an honest transfer of three windows on the peer's first stream
-        steps += [{"do": "app", "n": attacker_n, "c": 0, "read_max": 1 << 20, "ordered": True,
+        # bookkeeping is recycled: first an honest exchange of three windows on the peer's first stream
+        # (answered and finished by the victim, so that the stream is released and one more stream is
+        # granted), then the probe goes to the newly granted stream
+        steps += [{"do": "app", "n": attacker_n, "c": 0, "read_max": 1 << 20, "ordered": True, "echo": 10,
                    "streams": [{"dir": 0, "size": 3 * sw, "chunk": 1000, "finish": True}]},
-                  {"do": "run_until", "what": "apps", "max_us": 5000000}, {"do": "run", "us": 200000}]
+                  {"do": "run_until", "what": "apps", "max_us": 5000000}, {"do": "run", "us": 300000}]
         d["warm"] = True
+        sid = 4 * msb + peerbit
+        end = limit + rel
+        d.update({"id": sid, "end": end})
+        if k == "stream":
+            fb = bytes([0x0e]) + _var(sid) + _var(end - 1) + _var(1) + b"A"
+        else:
+            fb = bytes([0x04]) + _var(sid) + _var(5) + _var(end)
     steps += [{"do": "mitm", "dir": "c2s" if v == "s" else "s2c", "nth_short": 0, "mode": "append", "hex": fb.hex()},
               {"do": "op", "n": attacker_n, "c": 0, "op": {"op": "ping"}},
               {"do": "run", "us": 300000}]
